@@ -14,6 +14,8 @@ CHECKS = {
  "C12": dict(fam="proc", ref="4.2", text="Same pipeline with failure injection on every sink call that can change state (model: FaultLevel 1; real code: scripted mock failures): per-sink protocol automaton, no panic, and C03/C04 re-armed after the sink is closed again."),
  "C13": dict(fam="proc", ref="4.2", text="Same pipeline with bad frames (raw Lepton frames with a zero interior pixel carrying a poison id) at every model state: reported as BadFrameErr, never written to any sink, never in a pre-trigger run (C02 over accepted ids), ends the open recording."),
  "C17": dict(fam="proc", ref="4.2", text="Same pipeline with the continuous sink and test-recording requests: every accepted frame once and in order on the continuous sink, files of MaxF+1, test recording of exactly 21 consecutive frames from the next frame, and the motion-sink projection equal to that of a shadow processor without continuous sink and requests."),
+ "C19": dict(fam="ring", ref="4.3", note="Trusted: TLC; frames tagged in pixels; API usage pattern (fill Current, then Move).", text="TLC proves for every capacity <= 5 (6 thorough) and every operation sequence within the tag bound that the code-shaped index arithmetic of FrameLoop.tla equals the declarative history/oldest/recent operators; every edge of the dumped graphs (cap 1..3/5) plus random sequences up to capacity 64 are executed on the real FrameLoop and every query answer is compared by TLC with the declarative operators."),
+ "C20": dict(fam="loglim", ref="4.10", note="Trusted: TLC; injected clock via the unexported nowFunc (in-package driver); standard logger captured.", text="TLC checks the code-shaped limiter against the declarative rule (printed iff not (same as last printed and < interval)) as an action property for all message/time sequences in the bound; transition cover + seeded histories run on the real LogLimiter with an injected clock and the captured output is judged by the TLA+ rule; the recorder's one-minute constant is read in-package."),
 }
 NOT_YET = {
 }
@@ -41,7 +43,9 @@ def main():
         hooks=dict(guard="verif", enable="go build -tags verif (drivers are compiled inside a scratch copy of /repo's working tree)",
                    baseline_off_cmd="cd /repo && go build ./... && go test -vet=off -count=1 ./...",
                    source_commits=[], add_only=True),
-        engines=[dict(name="tlc-proc", path="tools/fam_proc.py", serves_properties=[p for p in CHECKS if CHECKS[p]["fam"]=="proc"],
+        engines=[dict(name="tlc-ring", path="tools/fam_ring.py", serves_properties=["C19"], kind_free_text="TLC around spec/FrameLoop.tla; driver harness/ext/ringdrv"),
+                 dict(name="tlc-loglim", path="tools/fam_loglim.py", serves_properties=["C20"], kind_free_text="TLC around spec/LogLimiter.tla; in-package driver harness/inpkg/loglimiter"),
+                 dict(name="tlc-proc", path="tools/fam_proc.py", serves_properties=[p for p in CHECKS if CHECKS[p]["fam"]=="proc"],
                       kind_free_text="TLC (exhaustive + graph dump + simulate + trace validation) around spec/Processor.tla, ProcMon.tla; Go driver harness/ext/procdrv")],
         checks=checks,
         not_applicable=na,
